@@ -65,6 +65,21 @@ def cases(rng, tier):
         idx = {"r": rng.choice([{"t": "all"}, {"t": "slice", "a": None, "b": None, "k": -1}, {"t": "int", "i": rng.randrange(len(lens))}]),
                "c": {"t": "slice", "a": v(), "b": v(), "k": k}}
         out.append({"prop": "C02", "case": {"lens": lens, "idx": idx, "dtype": "int64", "vseed": rng.randint(0, 999), "variant": rng.randint(0, 29)}})
+    # integer row / column indices far outside the array that a cast to 32 bits would map onto valid ones (i + 2**32, i - 2**32):
+    # refused under both widths
+    for _ in range(200 if tier == "quick" else 2000):
+        lens = [rng.randint(1, 4) for _ in range(rng.randint(1, 4))]
+        n = len(lens)
+        i = rng.randint(-n, n - 1)
+        j = rng.randint(-lens[i], lens[i] - 1)
+        w = lambda v: v + rng.choice([2 ** 32, -2 ** 32, 2 ** 33])
+        which = rng.choice(["row", "col", "both", "list"])
+        r = {"t": "int", "i": w(i) if which in ("row", "both") else i}
+        if which == "list":
+            r = {"t": "list", "is": [i, rng.randint(-n, n - 1)]}
+        c = {"t": "int", "i": w(j) if which in ("col", "both", "list") else j}
+        out.append({"prop": rng.choice(["C02", "C03"]) if False else "C02",
+                    "case": {"lens": lens, "idx": {"r": r, "c": c}, "dtype": "int64", "vseed": rng.randint(0, 999), "variant": rng.randint(0, 29)}})
     _cases = out
     return out
 
